@@ -199,9 +199,10 @@ Definition ops_of (c : spcase) : list obs :=
     (2, map node_row (get_all_nodes g), []) ::
     (1003, map edge_row (get_all_edges g), []) ::
     (* the hypotheses of the theorems of Properties/C04.v hold for this graph
-       (weighted reading, hop-count reading) *)
+       (weighted reading, hop-count reading), and the name indexes are coherent *)
     (46, [[if search_hypotheses_b g true then 1 else 0;
-           if search_hypotheses_b g false then 1 else 0]], []) ::
+           if search_hypotheses_b g false then 1 else 0;
+           if names_wf_b teqb g then 1 else 0]], []) ::
     flat_map (run_call g) (s_calls c)
   | _ => []
   end.
